@@ -381,6 +381,13 @@ def harnesses(tier):
     hs.append(Harness("default_model[brew(rng=seed) builds its own model]", dict(n=4), sym_default_model, real="default_model", functions=[B.brew, B.PercolatorModel.__init__],
                       bounds=dict(runs=2), stubs=["numpy.random in mokapot.model -> shim (unseeded generator: arbitrary draws; seeded: function of (seed, index))", "construction intercepted after PercolatorModel.__init__"],
                       assumptions=["scikit-learn's KFold/GridSearchCV are deterministic functions of random_state"], sample_rate=1.0))
+    # (a) protein grouping across interpreter sessions: identical maps, group names included, whatever the
+    # iteration order of sets of strings - the C16 harness on several FASTA files
+    from checks import c16
+    for h in c16.harnesses(tier):
+        if "files" in h.name:
+            h.name = "fasta:" + h.name
+            hs.append(h)
     hs.append(Harness("user_model[brew(model=Model(est) built without rng, rng=seed)]", dict(n=4), sym_user_model, real="user_model", functions=[B.brew],
                       bounds=dict(runs=2), stubs=["numpy.random in mokapot.model -> shim (unseeded generator: arbitrary draws; seeded: function of (seed, index))", "_fit_model intercepted: one draw from the fold model's generator"],
                       assumptions=["a copy of a generator continues the stream of the original"], sample_rate=1.0))
@@ -466,4 +473,4 @@ def _pair(cfg, inp, run, splits, folds):
     return dict(outputs=None, violation=None)
 
 
-REAL = {"rerun": real_rerun, "split_sessions": real_split_sessions, "default_model": real_default_model, "user_model": real_user_model}
+REAL = {"rerun": real_rerun, "split_sessions": real_split_sessions, "default_model": real_default_model, "user_model": real_user_model, "fasta": lambda cfg, inp: __import__("checks.c16", fromlist=["x"]).real_fasta(cfg, inp)}
